@@ -582,7 +582,10 @@ def run():
         tc["_der"] = s["_der"] + [1] * 4
         tcs.append(tc)
     if QUICK:
-        idx = rng.sample(range(len(tcs)), min(len(tcs), 1500))
+        # every corruption of a user-supplied index is kept (the tree-wise validation walks the index arrays), the rest is sampled
+        must = [i for i, r in enumerate(recs) if r["what"][0] == "index"]
+        rest = [i for i in range(len(tcs)) if i not in set(must)]
+        idx = must + rng.sample(rest, min(len(rest), max(0, 1500 - len(must))))
         tcs = [tcs[i] for i in idx]
         recs = [recs[i] for i in idx]
     B = 25
